@@ -15,6 +15,7 @@ import (
 	"verifmc/ev"
 	"verifmc/explore"
 	"verifmc/fake"
+	"verifmc/par"
 	"verifmc/seam"
 	"verifmc/vsched"
 )
@@ -51,8 +52,8 @@ func runFaults(r *ev.Run) (int64, int64) {
 	outcomes := map[string]bool{}
 	for _, f := range faults {
 		f := f
-		t := explore.Tree{Bound: bound, Deadline: time.Now().Add(4 * time.Minute)}
-		t.Run(func(c *explore.Chooser) {
+		t := explore.Tree{Bound: bound, Deadline: time.Now().Add(treeDeadline(r))}
+		t.RunShard(treeShard, treeShards, func(c *explore.Chooser) {
 			ts := seam.New(seam.Options{})
 			defer ts.Close()
 			ts.MustRegister(idA, 1)
@@ -126,7 +127,7 @@ func runFaults(r *ev.Run) (int64, int64) {
 	for o := range outcomes {
 		r.Outcome("fault/" + o)
 	}
-	r.Extra["faults"] = map[string]any{"executions": exec, "choice_points": points, "fault_kinds": []string{"error-before-write", "error-after-partial-frame", "single-failed-write"}, "write_indexes": "0..7 and none", "deviation_bound": bound}
+	r.Extra["faults"+shardSuffix()] = map[string]any{"executions": exec, "choice_points": points, "fault_kinds": []string{"error-before-write", "error-after-partial-frame", "single-failed-write"}, "write_indexes": "0..7 and none", "deviation_bound": bound}
 	return exec, points
 }
 
@@ -152,8 +153,8 @@ func runSchedules(r *ev.Run) (int64, int64) {
 		if withJoin {
 			b = bound - 1 // four threads and ~100 points per execution: one preemption less
 		}
-		t := explore.Tree{Bound: b, Deadline: time.Now().Add(5 * time.Minute)}
-		t.Run(func(c *explore.Chooser) {
+		t := explore.Tree{Bound: b, Deadline: time.Now().Add(treeDeadline(r))}
+		t.RunShard(treeShard, treeShards, func(c *explore.Chooser) {
 			ts := seam.New(seam.Options{})
 			defer ts.Close()
 			ts.MustRegister(idA, 1)
@@ -265,7 +266,7 @@ func runSchedules(r *ev.Run) (int64, int64) {
 		}
 		exec += t.Executions
 		points += t.Points
-		r.Extra[fmt.Sprintf("schedules_join=%v", withJoin)] = map[string]any{"preemption_bound": b, "executions": t.Executions, "choice_points": t.Points, "max_depth": t.MaxDepth}
+		r.Extra[fmt.Sprintf("schedules_join=%v", withJoin)+shardSuffix()] = map[string]any{"preemption_bound": b, "executions": t.Executions, "choice_points": t.Points, "max_depth": t.MaxDepth}
 	}
 	var os []string
 	for o := range outcomes {
@@ -288,8 +289,8 @@ func runReplayVsRemove(r *ev.Run) (int64, int64) {
 		bound = 3
 	}
 	outcomes := map[string]bool{}
-	t := explore.Tree{Bound: bound, Deadline: time.Now().Add(4 * time.Minute)}
-	t.Run(func(c *explore.Chooser) {
+	t := explore.Tree{Bound: bound, Deadline: time.Now().Add(treeDeadline(r))}
+	t.RunShard(treeShard, treeShards, func(c *explore.Chooser) {
 		ts := seam.New(seam.Options{})
 		defer ts.Close()
 		chat := func(i int) {
@@ -352,7 +353,7 @@ func runReplayVsRemove(r *ev.Run) (int64, int64) {
 	for o := range outcomes {
 		r.Outcome("replay-vs-remove/" + o)
 	}
-	r.Extra["replay_vs_remove"] = map[string]any{"preemption_bound": bound, "executions": t.Executions, "choice_points": t.Points, "distinct_observations": len(outcomes)}
+	r.Extra["replay_vs_remove"+shardSuffix()] = map[string]any{"preemption_bound": bound, "executions": t.Executions, "choice_points": t.Points, "distinct_observations": len(outcomes)}
 	return t.Executions, t.Points
 }
 
@@ -381,17 +382,49 @@ func Run(r *ev.Run) {
 		r.Violate("harness/not-instrumented", "C11 needs the sched build", nil)
 		return
 	}
-	res := runHistories(r)
-	r.Extra["histories"] = map[string]any{"states": res.States, "transitions": res.Transitions, "depth_completed": res.Depth, "new_states_by_depth": res.ByDepth}
-	if res.Capped {
-		r.NotExhaustive(fmt.Sprintf("history BFS stopped by the internal deadline after depth %d", res.Depth))
+	if _, _, worker := par.Shard(); !worker {
+		res := runHistories(r)
+		r.Extra["histories"] = map[string]any{"states": res.States, "transitions": res.Transitions, "depth_completed": res.Depth, "new_states_by_depth": res.ByDepth}
+		if res.Capped {
+			r.NotExhaustive(fmt.Sprintf("history BFS stopped by the internal deadline after depth %d", res.Depth))
+		}
+		r.AddStates(res.States, res.Transitions, res.Transitions)
 	}
-	fe, fp := runFaults(r)
-	se, sp := runSchedules(r)
-	re, rp := runReplayVsRemove(r)
-	je, jp := runJoinVsRegister(r)
-	r.Eval(int(fe + se + re + je))
-	r.AddStates(res.States+fp+sp+rp+jp, res.Transitions+fp+sp+rp+jp, res.Transitions+fe+se+re+je)
+	// the four schedule/fault parts, each schedule tree split over treeParts worker processes
+	parts := []func(*ev.Run) (int64, int64){runFaults, runSchedules, runReplayVsRemove, runJoinVsRegister}
+	const treeParts = 4
+	r.Bounds["schedule_tree_shards"] = treeParts
+	par.Run(r, len(parts)*treeParts, 40*time.Minute, func(i, n int, r *ev.Run) {
+		if n == 1 {
+			for _, f := range parts {
+				e, p := f(r)
+				r.Eval(int(e))
+				r.AddStates(p, p, e)
+			}
+			return
+		}
+		treeShard, treeShards = i%treeParts, treeParts
+		e, p := parts[i/treeParts](r)
+		r.Eval(int(e))
+		r.AddStates(p, p, e)
+	})
+}
+
+// Every schedule tree of parts 2 and 3 is explored in shards (explore.Tree.RunShard).
+var treeShard, treeShards = 0, 1
+
+func shardSuffix() string {
+	if treeShards <= 1 {
+		return ""
+	}
+	return fmt.Sprintf("/shard_%d_of_%d", treeShard, treeShards)
+}
+
+func treeDeadline(r *ev.Run) time.Duration {
+	if r.Thorough() {
+		return 12 * time.Minute
+	}
+	return 4 * time.Minute
 }
 
 func inBFS() bool { return parTag() != "" }
@@ -409,8 +442,8 @@ func runJoinVsRegister(r *ev.Run) (int64, int64) {
 	r.Bounds["preemption_bound_join_vs_register"] = bound
 	outcomes := map[string]bool{}
 	const idB = 0x00c11b02
-	t := explore.Tree{Bound: bound, Deadline: time.Now().Add(5 * time.Minute)}
-	t.Run(func(c *explore.Chooser) {
+	t := explore.Tree{Bound: bound, Deadline: time.Now().Add(treeDeadline(r))}
+	t.RunShard(treeShard, treeShards, func(c *explore.Chooser) {
 		ts := seam.New(seam.Options{})
 		defer ts.Close()
 		ts.MustRegister(idA, 1)
@@ -478,6 +511,6 @@ func runJoinVsRegister(r *ev.Run) (int64, int64) {
 	for o := range outcomes {
 		r.Outcome("sched-join-register/" + o)
 	}
-	r.Extra["schedules_join_vs_register"] = map[string]any{"executions": t.Executions, "choice_points": t.Points, "distinct_observations": len(outcomes), "preemption_bound": bound}
+	r.Extra["schedules_join_vs_register"+shardSuffix()] = map[string]any{"executions": t.Executions, "choice_points": t.Points, "distinct_observations": len(outcomes), "preemption_bound": bound}
 	return t.Executions, t.Points
 }
